@@ -204,7 +204,7 @@ pub struct History {
 
 impl History {
     pub fn command(&self) -> String {
-        let mut s = if self.start.to_fen() == START_FEN { "position startpos".to_string() } else { format!("position fen {}", self.start.to_fen6(0, 1)) };
+        let mut s = if self.start.to_fen() == START_FEN { "position startpos".to_string() } else { format!("position fen {}", self.start.to_fen_game()) };
         if !self.moves.is_empty() {
             s.push_str(" moves");
             for m in &self.moves {
